@@ -40,6 +40,7 @@ def loudHandler : Handler := fun _ c =>
 def step (_ : Unit) (op impl : String) : Unit × DrvOut :=
   match words op with
   | "reset" :: _ => ((), { model := "ok" })
+  | "reload" :: _ => ((), { model := "ok" })
   | ["routes", s] =>
     match parseSrv s >>= factsOf with
     | some f =>
@@ -68,10 +69,11 @@ def step (_ : Unit) (op impl : String) : Unit × DrvOut :=
             else match rt with
               | some r => (observe (run (chainFor auth f r loudHandler loudHandler) req {})).str
               | none => if req.preflight then (observe (refusal auth srv req)).str else "-"
-          let spec := match parseObs impl with
+          let spec := if impl.startsWith "oracle-mismatch" then "ok" else match parseObs impl with
             | some o => (match specObs srv routed req res o with | none => "ok" | some m => "FAIL " ++ m)
             | none => "FAIL unparsable implementation answer: " ++ impl
-          ((), { model := model, spec := spec })
+          -- `oracle-mismatch`: the op line's oracle columns do not fit the history (only in shrunk replays)
+          ((), { model := if impl.startsWith "oracle-mismatch" then "-" else model, spec := spec })
       | _, _ => ((), { model := "bad-op" })
     | _, _ => ((), { model := "bad-op" })
   | _ => ((), { model := "bad-op" })
